@@ -19,6 +19,7 @@ func c04(c *Ctx) {
 	r.Floor("R1.buffer-escape", 8)
 	r.Floor("R2.key-agreement", 3)
 	r.Floor("R3.refused-put-noop", 3)
+	r.Floor("R2.get-reads-db", 3)
 	r.Floor("R3.accepted-put-writes", 2)
 	r.Floor("R4.reserved-key", 1)
 	r.Floor("R5.routing", 2)
@@ -136,6 +137,45 @@ func c04(c *Ctx) {
 		ok := copiedFrom(v, isSrc) || isSrc(v)
 		r.Check(ok, "R2.key-agreement", core.FuncName(m.get)+" returns-db-bytes", p.Pos(core.InstrPos(ret)),
 			"a non-nil result is (a copy of) what the database returned for the derived key", "Get can return bytes that do not come from the database read")
+	}
+
+	// ---- R7: Get consults the database for every id: every exit passes the database read (no
+	// short-cut that answers from the radius or another condition)
+	{
+		reads := core.CallsTo(m.get, pebbleGet)
+		if len(reads) != 1 {
+			r.Fail("R2.get-reads-db", core.FuncName(m.get), p.Pos(m.get.Pos()), fmt.Sprintf("expected one database read in Get, found %d", len(reads)))
+		} else {
+			for i, ret := range core.Returns(m.get) {
+				w := core.MustPassBefore(ret, func(in ssa.Instruction) bool { return in == reads[0].(ssa.Instruction) })
+				r.Check(w == nil, "R2.get-reads-db", fmt.Sprintf("%s exit #%d", core.FuncName(m.get), i+1), p.Pos(core.InstrPos(ret)),
+					"this exit is reached only after the database was read", "Get can answer without reading the database (an accepted, un-pruned item can be reported as not found): "+p.PathString(w))
+			}
+			// not-found is reported only on the database's own not-found
+			for _, ret := range core.Returns(m.get) {
+				ev := core.ResolveSpill(ret.Results[1])
+				u, ok := ev.(*ssa.UnOp)
+				if !ok {
+					continue
+				}
+				g, ok := u.X.(*ssa.Global)
+				if !ok || g.Name() != "ErrContentNotFound" {
+					continue
+				}
+				nf := core.AnyFact(func(f core.Fact) bool {
+					if f.Op != token.ILLEGAL || !f.Truth {
+						return false
+					}
+					cc, ok := f.V.(*ssa.Call)
+					return ok && core.CalleeID(cc) == "errors.Is" && core.Derives(cc.Call.Args[0], func(v ssa.Value) bool {
+						ex, ok := v.(*ssa.Extract)
+						return ok && ex.Tuple == reads[0].Value()
+					}, core.DeriveOpts{})
+				})
+				w := core.InstrGuarded(ret, nf, nil)
+				r.Check(w == nil, "R2.get-reads-db", core.FuncName(m.get)+" not-found-only-from-db", p.Pos(core.InstrPos(ret)), "ErrContentNotFound only when the database read returned its not-found error", "Get can report not-found for an id the database holds: "+p.PathString(w))
+			}
+		}
 	}
 
 	// ---- R3: mutations in Put only after the radius test succeeded
